@@ -16,7 +16,7 @@ def _noaddr(text: str) -> str:
 
 from geometer.base import Tensor, TensorDiagram
 
-_SMALL = 512
+_SMALL = 262144   # bytes kept verbatim (larger arrays are hashed: the noise valve cannot look into those)
 
 
 def _arr(a: np.ndarray):
@@ -121,6 +121,10 @@ def diff(old, new, path: str = "") -> list[tuple[str, str]]:
 def canon(v, depth: int = 0, _path=()):
     """Canonical, bit-exact description of a returned value or raised exception."""
     if isinstance(v, BaseException):
+        if isinstance(v, RecursionError):
+            # the wording depends on which kind of frame happened to hit the limit; where that is depends on the
+            # depth of the caller's own stack (client thread vs. main thread), which is not an answer of the library
+            return ("exc", "RecursionError", "", None)
         dv = getattr(v, "dependent_values", None)
         return ("exc", type(v).__name__, _noaddr(str(v)[:2000]), canon(dv, depth + 1) if dv is not None else None)
     if isinstance(v, Tensor):
@@ -230,7 +234,13 @@ def noise_only(a, b, ulps: int = 8) -> bool:
             return False
         with np.errstate(all="ignore"):
             tol = ulps * np.spacing(np.maximum(np.abs(u), np.abs(v)))
-            ok = (np.abs(u - v) <= tol) | (np.isnan(u) & np.isnan(v)) | (u == v)
+            # entries that are (nearly) zero by cancellation carry the ABSOLUTE rounding noise of the array's scale:
+            # an angle of 1.7e-15 in an array of angles up to pi/2 differed by 4e-17 between two calls on the same 65
+            # lines (numpy's blocked/SIMD kernels round differently for differently aligned temporaries)
+            fin = np.concatenate([np.abs(u[np.isfinite(u)]), np.abs(v[np.isfinite(v)])])
+            scale = float(fin.max()) if fin.size else 0.0
+            ok = (np.abs(u - v) <= tol) | (np.abs(u - v) <= 64 * np.finfo(u.dtype).eps * scale) | \
+                 (np.isnan(u) & np.isnan(v)) | (u == v)
         if not np.all(ok):
             return False
     return True
